@@ -254,12 +254,14 @@ def c12(res, tier, seed):
     NPHI = 24 if tier == "quick" else 96
     pdx, pdy = F("pdx"), F("pdy")
     boxp = [T.fcmp("fle", -3.0, pdx), T.fcmp("fle", pdx, 3.0), T.fcmp("fle", -3.0, pdy), T.fcmp("fle", pdy, 3.0)]
-    for n in ((3, 4) if tier == "quick" else (3, 4, 5, 6)):
+    for n in ((3, 4, 6) if tier == "quick" else (3, 4, 5, 6)):
         sdata = data["shapes"]["polygon%d" % n]
         shape_val = S.shape_value(sdata)
         sitems = [tuple(S.clean(unjf(v)) for v in it_) for it_ in sdata["items"]]
         for mirror in (False, True):
             for kphi in range(2 * NPHI):
+                if tier == "quick" and n == 6 and (kphi % 2 == 1 or (kphi // 2) % 2 == 1):
+                    continue   # hexagon in the quick tier: the twelve aligned angles only
                 phi = (kphi // 2) * 2 * math.pi / NPHI + (0.0 if kphi % 2 == 0 else math.pi / NPHI + 0.0071)
                 cph, sph = math.cos(phi), math.sin(phi)
                 mx = -1.0 if mirror else 1.0
@@ -354,8 +356,24 @@ def c12(res, tier, seed):
         elif "swapped" in q.name and all(s_[0] != s_[1] for s_ in said):
             what = "intersects(a,b) = %s but intersects(b,a) = %s" % said[0]
         if what:
-            return ("violated", "polygon(%d) pair, B %srotated by %.6g and moved by (%.9g, %.9g): %s" % (mt["n"], "mirrored, " if mt["mirror"] else "", mt["phi"], dxv, dyv, what),
-                    dict(kind="eval", fn="LineShape::intersects", radii=[1.0] * mt["n"], a=A_, b=B_, native=outs[0]), dict(clause="polygon-pair", sides=mt["n"]))
+            # do the two boundaries cross anywhere but at edge ends?  (exactly aligned copies meet only at vertices)
+            interior_crossing = False
+            nA = len(va)
+            for i_ in range(nA):
+                a0, a1 = va[i_], va[(i_ + 1) % nA]
+                for j_ in range(nA):
+                    b0, b1 = vb[j_], vb[(j_ + 1) % nA]
+                    adx_, ady_, bdx_, bdy_ = a1[0] - a0[0], a1[1] - a0[1], b1[0] - b0[0], b1[1] - b0[1]
+                    den_ = bdy_ * adx_ - bdx_ * ady_
+                    if abs(den_) < 1e-12:
+                        continue
+                    ua_ = (bdx_ * (a0[1] - b0[1]) - bdy_ * (a0[0] - b0[0])) / den_
+                    ub_ = (adx_ * (a0[1] - b0[1]) - ady_ * (a0[0] - b0[0])) / den_
+                    if 1e-9 < ua_ < 1 - 1e-9 and 1e-9 < ub_ < 1 - 1e-9:
+                        interior_crossing = True
+            return ("violated", "polygon(%d) pair, B %srotated by %.6g and moved by (%.9g, %.9g): %s%s" % (mt["n"], "mirrored, " if mt["mirror"] else "", mt["phi"], dxv, dyv, what,
+                                                                                                         "" if interior_crossing else " (the boundaries meet only at edge ends)"),
+                    dict(kind="eval", fn="LineShape::intersects", radii=[1.0] * mt["n"], a=A_, b=B_, native=outs[0]), dict(clause="polygon-pair", sides=mt["n"], vertex_only_crossings=not interior_crossing))
         return ("spurious", "native test agrees with the geometry on the model (penetration %.3g, test says %s)" % (pen, said[0]))
     good = [q for q in pair_done if q.status == "unsat"]
     for q in pair_done:
